@@ -119,13 +119,13 @@ Definition witness_cycle : list execdef :=
 
 (** * Non-vacuity *)
 
-(** query Q($v: Int = 3 @tag(name: "t")) { k: y(i: {l: [$v, null], s: "a\""/"}) @skip(if: true) ...A ...B }
+(** query getUser($v: Int = 3 @tag(name: "t")) { k: y(i: {l: [$v, null], s: "a\""/"}) @skip(if: true) ...A ...B }
     fragment D on Query { x }   fragment B on Query { ... on Query { ...D } }   fragment A on Query { a { ...D } }
     fragment Unused on Query { ...A } *)
 Definition sample_dir (n : str) (k : str) (v : value) : directive :=
   mkDir pos0 (mkid n) (Some (mkArgs pos0 [(mkid k, v)])).
 Definition sample_doc : list execdef :=
-  [DOp (mkOp pos0 Query (Some (mkid (s "Q")))
+  [DOp (mkOp pos0 Query (Some (mkid (s "getUser")))
           (Some (mkVarDefs pos0 [mkVarDef pos0 (s "v") pos0 (TNamed (mkid (s "Int"))) (Some (VInt pos0 (s "3")))
                                    [sample_dir (s "tag") (s "name") (VString pos0 (s "t"))]]))
           []
@@ -169,4 +169,13 @@ Example cycle_ok :
   | Ok ts => map (fun t => option_map (map adef_name) (read_document t)) ts
   | _ => []
   end = [Some [Some (s "A"); Some (s "B")]; Some [Some (s "B"); Some (s "A")]].
+Proof. vm_compute. reflexivity. Qed.
+
+(** the embedded operation keeps its name exactly as written (lower-case first letter included): the name
+    the reader finds is the source name, not the capitalised TypeScript identifier *)
+Example sample_operation_name :
+  match document_runtime_texts (mkOpDoc pos0 sample_doc) with
+  | Ok (t :: _) => option_map (fun ds => match ds with d :: _ => adef_name d | [] => None end) (read_document t)
+  | _ => None
+  end = Some (Some (s "getUser")).
 Proof. vm_compute. reflexivity. Qed.
